@@ -210,3 +210,12 @@ package harfbuzz
 //@   mode int
 //@   assert_at call unsafeToBreak#1 : [kerned-pair-flagged] arg1 == i && arg2 == j+1
 //@   modifies unspecified
+//
+// Buffer.sort (mark reordering): the glyph that moves from i to j has its cluster merged with everything it jumps
+// over, [j, i], so that clusters stay monotone (mergeClusters' contract gives the whole range its minimum).
+//@ func Buffer.sort C01
+//@   mode int
+//@   readonly_callback compar
+//@   assert_at call mergeClusters#1 : [merged-range-covers-the-move] arg1 == j && arg2 == i+1 && j < i
+//@   modifies unspecified
+//@   loop 2 invariant [j-range] j <= i
